@@ -35,7 +35,7 @@ LEVELS = ["strict", "relaxed", "loose"]
 # fake Pfam-A.hmm content: NAME, ACC, trusted cutoff
 PFAM_PROFILES = [("p450", "PF00067.20", 20.0), ("ketoacyl-synt", "PF00109.28", 25.0), ("PP-binding", "PF00550.27", 15.0),
                  ("AMP-binding", "PF00501.30", 30.0), ("Condensation", "PF00668.22", 22.0), ("adh_short", "PF00106.27", 18.0)]
-PFAM_VERSIONS = ["34.0", "35.0"]
+PFAM_VERSIONS = ["35.1", "35.10"]      # different releases whose numbers are equal as floats
 
 MOTIFS = ["C1_dual_004-017", "NRPS-A_a3", "PKSI-KR_m1", "NRPS-te1", "PKSI-AT-mM_m3"]
 
